@@ -24,6 +24,7 @@
 // Result lines:  "= cap hex" (state of the target register), "i n", "b 0|1", "l c,c,..", "w hex",
 // "E" (Laufzeitfehler; the history ends), "STUCK" (iteration would not terminate; the history ends).
 // With argument "fork" every history runs in a child process; a child that dies prints "!exit n" / "!sig n".
+// With argument "flush" stdout is flushed after every line (the caller restarts after a sanitizer abort).
 #define _GNU_SOURCE
 #include "DDP/ddptypes.h"
 #include "DDP/utf8/utf8.h"
@@ -235,6 +236,7 @@ static void sequences(int lead, int n, int lo, int hi) {
 
 int main(int argc, char **argv) {
 	int use_fork = argc > 1 && strcmp(argv[1], "fork") == 0;
+	int use_flush = argc > 1 && strcmp(argv[1], "flush") == 0; // a sanitizer abort must not lose finished lines
 	setlocale(LC_ALL, "de_DE.UTF-8"); // what ddp_init_runtime does (the link-time shim maps it to C.utf8)
 	// the whole input is read before the first fork, so parent and child never share a read position
 	size_t capacity = 1 << 20, used = 0;
@@ -272,6 +274,7 @@ int main(int argc, char **argv) {
 			}
 			reset();
 			dead = 0;
+			if (use_flush) fflush(stdout);
 			continue;
 		}
 		if (dead && in_child) continue;
@@ -283,7 +286,7 @@ int main(int argc, char **argv) {
 		}
 		if (dead) continue;
 		if (do_op(line)) dead = 1;
-		if (in_child) fflush(stdout);
+		if (in_child || use_flush) fflush(stdout);
 	}
 	if (in_child) { fflush(stdout); _exit(0); }
 	reset();
